@@ -32,7 +32,8 @@ FINAL = {
           "HeterodyneMeasurement", "GeneraldyneMeasurement"],
     "F": ["ParticleNumberMeasurement"],
 }
-SHOTS_NONE_OK = {"PF": ["ParticleNumberMeasurement"], "P": ["ParticleNumberMeasurement"],
+SHOTS_NONE_OK = {"PF": ["ParticleNumberMeasurement", "ImperfectParticleNumberMeasurement"],
+                 "P": ["ParticleNumberMeasurement", "ImperfectParticleNumberMeasurement"],
                  "F": ["ParticleNumberMeasurement"], "G": []}
 GATES = {
     "PF": progs.PASSIVE + progs.KERR + ["Squeezing", "Displacement", "PositionDisplacement"],
@@ -92,9 +93,18 @@ def param_expr(draw, nout: int, continuous: bool = False):
     return form.format(i=i, c=c)
 
 
+def imperfect_params(draw, cutoff):
+    """Detector efficiency matrix P[detected, actual]: `cols` actual counts (>= cutoff so
+    every reachable count has a column), `rows` detectable counts — square, click-type
+    (fewer rows) or with extra rows."""
+    cols = cutoff + draw(st.integers(0, 1))
+    rows = draw(st.sampled_from([2, max(2, cols - 1), cols, cols + 1]))
+    return {"dseed": draw(st.integers(0, 2**16)), "rows": rows, "cols": cols}
+
+
 @st.composite
 def adaptive_program(draw, sim: str, max_meas: int = 3, allow_postselect: bool = True,
-                     dmax: int = 4, final_measure=None):
+                     dmax: int = 4, final_measure=None, imperfect: bool = False):
     d = draw(st.integers(2, dmax))
     if sim == "G":
         prep = {"kind": "vacuum"}
@@ -143,6 +153,11 @@ def adaptive_program(draw, sim: str, max_meas: int = 3, allow_postselect: bool =
             modes = draw(progs.ordered_modes(d, k, active))
             m = draw(st.sampled_from(MID[sim]))
             p = {}
+            # (mid-circuit imperfect counting is only documented for the passive simulator)
+            if imperfect and sim == "P" and m == "ParticleNumberMeasurement" \
+                    and draw(st.integers(0, 3)) == 0:
+                m = "ImperfectParticleNumberMeasurement"
+                p = imperfect_params(draw, cutoff)
             if m == "HomodyneMeasurement":
                 p = {"phi": draw(progs.angle())}
             if m == "GeneraldyneMeasurement":
@@ -163,6 +178,9 @@ def adaptive_program(draw, sim: str, max_meas: int = 3, allow_postselect: bool =
         k = draw(st.integers(1, len(active)))
         modes = draw(progs.ordered_modes(d, k, active))
         p = {}
+        if imperfect and m == "ParticleNumberMeasurement" and draw(st.integers(0, 3)) == 0:
+            m = "ImperfectParticleNumberMeasurement"
+            p = imperfect_params(draw, cutoff if sim != "G" else 6)
         if m == "HomodyneMeasurement":
             # PF: nonzero rotation angle is documented as not yet supported
             p = {"phi": draw(progs.angle()) if sim == "G" else 0.0}
@@ -189,7 +207,25 @@ def make_measurement(pq, step):
         a = rng.normal(size=(2, 2))
         cov = a @ a.T + 2.0 * np.eye(2)  # 2x2, physical (>= vacuum)
         return pq.GeneraldyneMeasurement(detection_covariance=cov)
+    if m == "ImperfectParticleNumberMeasurement":
+        return pq.ImperfectParticleNumberMeasurement(
+            detector_efficiency_matrix=detector_matrix(p["dseed"], p["rows"], p["cols"]))
     return getattr(pq, m)()
+
+
+def detector_matrix(seed, rows, cols):
+    """Column-stochastic P[detected, actual] (each actual count is detected as some count);
+    a detector cannot see more photons than arrived when rows allow it."""
+    rng = progs.rng_of(seed)
+    m = rng.uniform(0.05, 1.0, size=(rows, cols))
+    for a in range(cols):
+        for dd in range(rows):
+            if dd > a and a < rows - 1:
+                m[dd, a] = 0.0
+    m[0, 0] = 1.0
+    if rows > 1:
+        m[1:, 0] = 0.0
+    return m / m.sum(axis=0, keepdims=True)
 
 
 def make_step(pq, step, cutoff):
